@@ -444,3 +444,26 @@ Qed.
 Print Assumptions C12_read_no_fuel.
 Print Assumptions C12_readfrom_translated_total.
 Print Assumptions C12_biomes_with_data_translated.
+
+(* ---- phase 6: the declared palette length (fix 5ccdbc5) *)
+(* a palette reader that has read a declared length above the 1<<bits entries its width can index
+   fails at once - whatever follows, before any entry is read, so the make([]T, size) of the code is
+   never reached with a hostile length; and every accepted palette has as many entries as declared,
+   at most 1<<bits of them, in a slice of at most max(cap, 1<<bits) elements.  (The writer never
+   emits a longer palette: C12_wire / C12_conformant are unchanged.) *)
+Theorem C12_palette_alloc_refused : forall fuel p cap pb s size n0 rest0, indirect p cap pb ->
+  run_flat read32 s = FOk (size, n0) rest0 -> 2 ^ pb < size ->
+  run_flat (pal_read fuel p) s = FErr eBigPal.
+Proof. exact palette_alloc_refused. Qed.
+Theorem C12_palette_alloc_bounded : forall fuel p cap pb s p' n rest, indirect p cap pb -> 0 <= pb ->
+  run_flat (pal_read fuel p) s = FOk (p', n) rest ->
+  exists vs cp, (p' = PLinear vs cp pb \/ p' = PHash vs cp pb) /\ zlen vs <= 2 ^ pb /\ cp = Z.max cap (zlen vs) /\
+                cp <= Z.max cap (2 ^ pb).
+Proof. exact palette_alloc_bounded. Qed.
+(* 04 ff ff ff ff 07 read into any block-state container: an error after 6 bytes, nothing else read *)
+Example C12_ex_hostile_length : forall c rest, ccfg c = mkCfg KStates 15 ->
+  run_flat (pc_read 100 c) ([4; 255; 255; 255; 255; 7] ++ rest)%N = FErr eBigPal.
+Proof. intros c rest E. unfold pc_read. rewrite E. reflexivity. Qed.
+
+Print Assumptions C12_palette_alloc_refused.
+Print Assumptions C12_palette_alloc_bounded.
